@@ -20,6 +20,39 @@ static std::mt19937 mk(Args& a)
 	return g;
 }
 
+// A CRAFTED generator state loaded through operator>> : std::mt19937(seed), one draw (the state table is regenerated, read
+// position 1), then the two state words consumed by the k-th canonical uniform from here are set to 0 for every listed k
+// (the tempering of a zero word is zero): that uniform is exactly 0.0.  Needs 1 + 2k + 1 < 624.
+static std::mt19937 mk_zeroed(unsigned seed, const std::vector<int>& ks)
+{
+	std::mt19937 g(seed);
+	g();
+	std::stringstream ss;
+	ss << g;
+	std::vector<std::string> tok;
+	std::string t;
+	while(ss >> t)
+		tok.push_back(t);
+	if(tok.size() != 625)
+		throw BadArgs("unexpected mt19937 serialisation");
+	for(int k : ks)
+	{
+		if(k < 0 || 1 + 2 * k + 1 >= 624)
+			throw BadArgs("zeroed uniform index");
+		tok[1 + 2 * k]	   = "0";
+		tok[1 + 2 * k + 1] = "0";
+	}
+	std::string joined;
+	for(auto& x : tok)
+		joined += x + " ";
+	std::stringstream in(joined);
+	std::mt19937 crafted;
+	in >> crafted;
+	if(in.fail())
+		throw BadArgs("could not load the crafted state");
+	return crafted;
+}
+
 // number of 32-bit draws that lead from `ref` to the state of `g` (ref is advanced); -1 if not reached
 static long long draws_between(std::mt19937& ref, const std::mt19937& g, long long limit = 200000000LL)
 {
@@ -158,6 +191,48 @@ std::string handle(const std::string& op, Args& a)
 		size_t n = a.u64();
 		a.end();
 		return run([&](Out& o) { for(size_t i = 0; i < n; i++) o << Sample_Uniform(g, 0.0, 1.0); });
+	}
+	if(op == "c18.canonz")
+	{
+		// canonical uniforms from a crafted state:  seed  nz k…  n
+		unsigned seed = (unsigned) a.u64();
+		auto ks		  = a.ints();
+		size_t n	  = a.u64();
+		a.end();
+		auto g = mk_zeroed(seed, ks);
+		return run([&](Out& o) { for(size_t i = 0; i < n; i++) o << Sample_Uniform(g, 0.0, 1.0); });
+	}
+	if(op == "c18.metroz")
+	{
+		// Metropolis from a crafted state whose accept/reject deviates are exactly 0.0:
+		//   seed dim sample thin burn sigma1 [sigma2] pdfid  ndom dom…   nz k…
+		unsigned seed = (unsigned) a.u64();
+		int dim		  = (int) a.i64();
+		unsigned s = a.u64(), t = a.u64(), b = a.u64();
+		double s1 = a.dbl(), s2 = dim == 2 ? a.dbl() : 0.0;
+		int id	  = (int) a.i64();
+		auto dom  = a.dbls();
+		auto ks	  = a.ints();
+		a.end();
+		auto g = mk_zeroed(seed, ks);
+		return run_forked([&](Out& o) {
+			auto ref = g;
+			if(dim == 1)
+			{
+				std::function<double(double)> f = [&](double x) { return pdf1(id, x); };
+				auto v = Sample_Metropolis(g, f, s1, s, t, b, dom);
+				o.list(v);
+			}
+			else
+			{
+				std::function<double(double, double)> f = [&](double x, double y) { return pdf2(id, x, y); };
+				auto v = Sample_Metropolis_2D(g, f, {s1, s2}, s, t, b, dom);
+				o << (long long) (2 * v.size());
+				for(auto& p : v)
+					o << p.first << p.second;
+			}
+			o << "u" << draws_between(ref, g) / 2;
+		});
 	}
 	if(op == "c18.uniform" || op == "c18.gauss")
 	{
